@@ -7,6 +7,7 @@ CHECKS = {
    text="Every triple of charges of the finite groups and of the box [-6,6] (pairs / triples of [-6,6]^2 for U1U1) is run through the real "
         "Symmetry objects and compared with a table based group model; every array with <=3 (quick) / <=4 (thorough) indices over every non-empty "
         "subset of a 3-charge set, every direction pattern and total charge has gen_valid_sectors / is_valid_sector / from_fill_fn compared with a brute-force filter. "
+        "sign() is also run with its dualness flag in every accepted representation (bool, int 0/1, numpy.bool_) in every order of first use from cold memo caches. "
         "The quantifier of the property is finite and is covered completely, which is why exhaustive enumeration is the right level.",
    note="Trusted: mc/groups.py as specification of the groups; python int semantics. Bounded to the stated boxes and index counts."),
  "C02": dict(engine="E-enum", design_ref="DESIGN.md 5 C02",
@@ -51,7 +52,7 @@ CHECKS = {
         "random and from_dense (classmethod and utils helper) are called on the static class and on the dynamic class with the symmetry as string / object / omitted / mismatching, with the "
         "charge given and omitted, and each result is compared (symmetry, charge, index tables, sectors, blocks, dtype) with the harness's expectation; calls that must be refused must raise. "
         "Dense arrays under sorted, reversed, interleaved and seeded per-axis labelings are converted to blocks and compared with the harness's projection onto the conserving sectors "
-        "(reordered by charge, original position); to_dense is compared with the harness embedding (fermionic structures carry pending signs); non-zero entries outside the conserving sectors are ignored / refused as documented; two arrays built from one caller mapping must not alias it.",
+        "(reordered by charge, original position); to_dense is compared with the harness embedding (fermionic structures carry pending signs; also for arrays whose blocks have differing element types, narrow type stored first or last); non-zero entries outside the conserving sectors are ignored / refused as documented; two arrays built from one caller mapping must not alias it.",
    note="Trusted: harness embedding / projection. from_blocks is compared on the charges that occur in the given blocks (it cannot know others)."),
  "C01": dict(engine="E-bfs", design_ref="DESIGN.md 5 C01, 4.3, 2.4",
    technique="explicit-state breadth-first search over operation sequences on the real objects, states canonicalised by structure key, independent validity audit evaluated on every transition's results",
@@ -93,7 +94,7 @@ CHECKS = {
    note="Trusted: LAPACK through numpy on small blocks; tolerance 1e-8..1e-9; block values are seeded Gaussians (structure is what is enumerated)."),
  "C12": dict(engine="E-enum", design_ref="DESIGN.md 5 C12",
    technique="same exhaustive matrix-structure enumeration as C11; oracle = numpy.linalg on the harness's dense embedding",
-   text="For every matrix of the C11 universe the multiset of returned singular values must equal the non-zero singular values of the dense embedding (abelian and fermionic), norm() the dense "
+   text="For every matrix of the C11 universe the multiset of singular values returned by svd and by svd_truncated asked not to truncate (defaults, cutoff 0, bond limit beyond the rank; symmray and autoray entry points) must equal the non-zero singular values of the dense embedding (abelian and fermionic), norm() the dense "
         "Frobenius norm; for abelian Hermitian charge-zero matrices the returned eigenvalues must equal the dense eigenvalues on the stored sectors, and solve(a, b) embedded must equal "
         "numpy.linalg.solve on the embedded square system.",
    note="Trusted: numpy.linalg on the dense embedding, tolerance 1e-8; singular values below 1e-8*s_max count as zero on both sides."),
@@ -140,7 +141,7 @@ CHECKS = {
  "C19": dict(engine="E-enum", design_ref="DESIGN.md 5 C19",
    technique="exhaustive enumeration of labelled simple graphs x edge-listing / labelling / coefficient-form variants on the real Hamiltonian builders; reference = the lattice Hamiltonian as Jordan-Wigner matrices on all lattice modes",
    text="For every labelled simple graph on 2-5 sites (1094 graphs; spinless 6-site graphs sliced in thorough), with edges listed in ascending, descending and mixed orientation and two list orders, "
-        "sites labelled by ints, tuples and strings, and coefficients given as scalars, dicts keyed in the reversed orientation and callables with bond- and site-dependent values, the two-site arrays "
+        "sites labelled by ints, tuples and strings (plus labelings whose natural, string and listing orders differ: two-digit and negative ints, tuples with such coordinates, numbered strings), and coefficients given as scalars, dicts keyed in the reversed orientation and callables with bond- and site-dependent values, the two-site arrays "
         "returned by the spinless (Z2, U1) and spinful (Z2, U1, Z2Z2, U1U1) builders are read out with the documented charge maps, lifted to full-lattice operators and summed; the sum must equal "
         "sum_bonds(-t hop + V n n) + sum_sites(U n_up n_down - mu n) exactly once per bond and per site. The caller's coefficient dicts must be unchanged by a build, and a second build after they were updated in place must use the new values. parse_edges_to_site_info is checked on the same inputs: one bond name per edge on exactly its two ends with "
         "opposite directions, coordination = degree, consistent lengths.",
